@@ -1,11 +1,11 @@
 SPECIFICATION Spec
 CONSTANTS
   Sel <- CodeSel
-  Calls <- OnlyOp
+  Calls <- TwoCalls
   Datagram = FALSE
   ReleaseOnWriteFail = TRUE
-  Cbs <- ThreeCbs
-  Closers <- TwoClosers
+  Cbs <- OneCb
+  Closers <- OneCloser
   Shutters <- NoShutters
   HasReader = TRUE
   ClosesSocket = TRUE
@@ -16,4 +16,4 @@ CONSTANTS
   ParkWakes = "conn"
   Noise = {"silent", "unsolicited", "garbage"}
 INVARIANTS NoFalseError SlotsSane OnceEach SockOnce DoneOnceIfReaderOnly
-PROPERTIES EndsButD22 CloseCompletes
+PROPERTIES Ends CloseCompletes
